@@ -331,9 +331,121 @@ def rule_forloop(ctx, sig, body, arg):
 
 
 def rule_tupleclone(ctx, sig, body, arg):
-    """@rule tupleclone <expr> <n>: `<expr>.clone()` on an n-tuple -> componentwise clone"""
-    raise RuleError('not implemented')
+    """@rule tupleclone <occurrence>: `let (A, B) = EXPR.clone();` where EXPR is a reference to a
+    pair -> `let tc__ = EXPR; let (A, B) = (tc__.0.clone(), tc__.1.clone());`
+    (Verus has no built-in Clone instance for tuples; Clone of a pair is componentwise)."""
+    occ = int(arg.split()[0]) if arg.strip() else 1
+    toks = tokenize(body)
+    ct = code_tokens(toks)
+    hits = []
+    for i, t in enumerate(ct):
+        if t.kind == 'ident' and t.text == 'let' and ct[i + 1].text == '(':
+            close = match_close(ct, i + 1)
+            if ct[close + 1].text != '=':
+                continue
+            # find end of statement
+            j = close + 2
+            depth = 0
+            while not (ct[j].text == ';' and depth == 0):
+                if ct[j].text in '([{':
+                    depth += 1
+                elif ct[j].text in ')]}':
+                    depth -= 1
+                j += 1
+            # must end with `.clone()`
+            if ct[j - 1].text == ')' and ct[j - 2].text == '(' and ct[j - 3].text == 'clone' and ct[j - 4].text == '.':
+                pat_items = _split_top_commas(body[ct[i + 1].end:ct[close].pos])
+                if len(pat_items) == 2:
+                    hits.append((i, close, j))
+    if occ < 1 or occ > len(hits):
+        raise RuleError('no `let (a, b) = <expr>.clone();` statement found')
+    i, close, j = hits[occ - 1]
+    pat = body[ct[i + 1].pos:ct[close].end]
+    expr = body[ct[close + 2].pos:ct[j - 4].pos].rstrip()
+    new = f'let tc__ = {expr};\n            let {pat} = (tc__.0.clone(), tc__.1.clone());'
+    ctx.note('R-tupleclone', body[ct[i].pos:ct[j].end], new)
+    return sig, body[:ct[i].pos] + new + body[ct[j].end:]
+
+
+def rule_refiter(ctx, sig, body, arg):
+    """@rule refiter <occurrence>: `for PAT in &EXPR {` -> `for PAT in EXPR.iter() {`
+    (std: `impl IntoIterator for &BTreeMap / &HashMap / &Vec` is defined as `self.iter()`); vstd specifies
+    `iter()` but not the `IntoIterator` impl of the reference."""
+    occ = int(arg.split()[0]) if arg.strip() else 1
+    toks = tokenize(body)
+    ct = code_tokens(toks)
+    hits = []
+    for i, t in enumerate(ct):
+        if t.kind == 'ident' and t.text == 'for' and ct[i - 1].text in (';', '{', '}'):
+            j = i + 1
+            depth = 0
+            while not (ct[j].kind == 'ident' and ct[j].text == 'in' and depth == 0):
+                if ct[j].text in '([':
+                    depth += 1
+                elif ct[j].text in ')]':
+                    depth -= 1
+                j += 1
+            if ct[j + 1].text == '&' and ct[j + 2].text != 'mut':
+                k = j + 2
+                while ct[k].text != '{':
+                    if ct[k].text in ('(', '['):
+                        k = match_close(ct, k)
+                    k += 1
+                hits.append((j + 1, k))
+    if occ < 1 or occ > len(hits):
+        raise RuleError('no `for .. in &EXPR` loop found')
+    a, k = hits[occ - 1]
+    expr = body[ct[a].end:ct[k].pos].strip()
+    new = f'{expr}.iter() '
+    ctx.note('R-refiter', '&' + expr, new)
+    return sig, body[:ct[a].pos] + new + body[ct[k].pos:]
 
 
 def rule_dropstmt(ctx, sig, body, arg):
     raise RuleError('not allowed')
+
+
+def rule_streq2(ctx, sig, body, arg):
+    """@rule streq2 <a> <b>: `<a> == <b>` with both sides `&String` -> `<a>.as_str() == <b>.as_str()`
+    (vstd specifies `&str == &str`, not `&String == &String`; String equality is equality of the str slices)."""
+    a, b = arg.split()
+    pat = re.compile(r'\b' + re.escape(a) + r'\s*==\s*' + re.escape(b) + r'\b')
+    ms = list(pat.finditer(body))
+    if not ms:
+        raise RuleError(f'`{a} == {b}` not found')
+    for m in reversed(ms):
+        new = f'{a}.as_str() == {b}.as_str()'
+        ctx.note('R-streq', m.group(0), new)
+        body = body[:m.start()] + new + body[m.end():]
+    return sig, body
+
+
+def rule_mapindex(ctx, sig, body, arg):
+    """@rule mapindex <expr>: `<expr>[&K]` -> `(*<expr>.get(&K).unwrap())` for a HashMap <expr>.
+    std defines `impl Index<&Q> for HashMap` as `self.get(key).expect("no entry found for key")`;
+    vstd has no specification for that Index impl (only for Vec / slices)."""
+    expr = arg.strip()
+    pat = re.compile(re.escape(expr).replace(r'\ ', r'\s*') + r'\s*\[')
+    n = 0
+    while True:
+        m = None
+        for mm in pat.finditer(body):
+            m = mm
+            break
+        if m is None:
+            break
+        # bracket match from m.end()-1
+        toks = tokenize(body)
+        ct = code_tokens(toks)
+        idx = next(i for i, t in enumerate(ct) if t.pos == m.end() - 1)
+        close = match_close(ct, idx)
+        inner = body[ct[idx].end:ct[close].pos]
+        new = f'(*{expr}.get({inner}).unwrap())'
+        ctx.note('R-mapindex', body[m.start():ct[close].end], new)
+        body = body[:m.start()] + new + body[ct[close].end:]
+        n += 1
+        if n > 20:
+            raise RuleError('mapindex: too many rewrites')
+    if n == 0:
+        raise RuleError(f'`{expr}[..]` not found')
+    return sig, body
